@@ -136,7 +136,7 @@ def gen_patterns(rng, tier):
 
     leaves = ["n", "_"]
     # flat list patterns
-    for w in range(0, 4):
+    for w in range(0, 5 if tier == "thorough" else 4):
         for ks in itertools.product(leaves, repeat=w):
             for rest in (None, "n", "_"):
                 pats.append(("L", [leaf(k) for k in ks], None if rest is None else leaf(rest)))
@@ -245,7 +245,8 @@ PATS = None
 def pats(tier):
     global PATS
     if PATS is None:
-        PATS = gen_patterns(random.Random(1), tier)
+        import os
+        PATS = gen_patterns(random.Random(1), os.environ.get("SEEDVERIF_C13_TIER", "quick"))
     return PATS
 
 
@@ -258,8 +259,10 @@ def make_probe(desc, k):
             return None
         v = srcs[si]
         has_short = any(s for _, _, s in p[1]) if p[0] == "O" else False
+        short_assign = False
         if has_short and pos != "fn":
             # shorthand names are the keys themselves (a, k): only usable once per script -> use a function scope
+            short_assign = pos == "assign"
             pos = "fn"
         out, seen = [], set()
         try:
@@ -282,6 +285,11 @@ def make_probe(desc, k):
             stmts = [A.Declare(V(n), A.Null()) for n in names] + [A.Assign(pe, src)] + prints
         elif pos == "for":
             stmts = [A.For(A.lst(V("_"), pe), A.lst(src), prints)]
+        elif short_assign:
+            # `{a, k} = src` inside a function whose scope already declares the names
+            stmts = [A.FuncStmt("pf%d" % k, [], False, [A.Declare(V(n), A.Str("unset")) for n in names] + [A.Assign(pe, src)] + prints),
+                     A.ExprStmt(A.call("pf%d" % k))]
+            pos = "assign-in-fn"
         else:
             stmts = [A.FuncStmt("pf%d" % k, [pe], False, prints), A.ExprStmt(A.call("pf%d" % k, src))]
         what = "%s in %s position against %r" % (show(p), pos, v)
@@ -289,9 +297,9 @@ def make_probe(desc, k):
         if ok and p[0] == "L" and p[2] is not None and p[2][0] == "n" and all(q[0] == "n" for q in p[1]) and pos == "decl":
             stmts.append(A.pr(A.Bin("==", A.Bin("+", A.lst(*[V(q[1]) for q in p[1]]), V(p[2][1])), A.lit(v))))
             lines.append("true")
-        if ok and p[0] == "O" and p[2] is not None and p[2][0] == "n" and all(q[0] == "n" for _, q, _ in p[1]) and pos in ("decl", "fn"):
+        if ok and p[0] == "O" and p[2] is not None and p[2][0] == "n" and all(q[0] == "n" for _, q, _ in p[1]) and pos in ("decl", "fn", "assign-in-fn"):
             law = A.pr(A.Bin("==", A.ObjectE([A.Pair(S(key), V(q[1])) for key, q, _ in p[1]] + [A.Single(V(p[2][1]), True, False)]), A.lit(v)))
-            if pos == "fn":
+            if pos in ("fn", "assign-in-fn"):
                 stmts[0].body.append(law)
             else:
                 stmts.append(law)
@@ -413,11 +421,14 @@ def show(p):
 
 
 def run(rep, tier):
+    import os
+    os.environ["SEEDVERIF_C13_TIER"] = tier      # workers enumerate the same pattern list
     rng = core.rng_for(PROP)
     P = pats(tier)
     descs = []
     positions = ["decl", "assign", "for", "fn"]
-    for pi in range(len(P)):
+    for rep_i in range(1 if tier == "quick" else 6):
+      for pi in range(len(P)):
         seed = rng.randrange(1 << 30)
         nsrc = 12
         for si in range(nsrc):
